@@ -94,17 +94,20 @@ def check_counter(ctx):
     wraps = []
     cfg = cfg_of(fn)
     for n in cfg.nodes:
-        if n.kind == "test" and field in norm(n.ast) and isinstance(n.ast, ast.Compare) and len(n.ast.ops) == 1:
+        t = n.ast if n.kind == "test" else None
+        while isinstance(t, ast.UnaryOp) and isinstance(t.op, ast.Not):
+            t = t.operand  # `if not c >= K: return ...` tests the same threshold
+        if t is not None and field in norm(t) and isinstance(t, ast.Compare) and len(t.ops) == 1 and dotted(t.left) == field:
             try:
-                bound = repo.fold(n.ast.comparators[0], f.module, f.cls)
+                bound = repo.fold(t.comparators[0], f.module, f.cls)
             except Exception:
                 bound = None
-            wraps.append((n, n.ast.ops[0], bound))
+            wraps.append((n, t.ops[0], bound))
     ok = False
     for n, op, bound in wraps:
-        if isinstance(op, ast.Gt) and bound is not None and 0 < bound <= 2**32 - 1:
-            ok = True
-        if isinstance(op, ast.GtE) and bound is not None and 0 < bound <= 2**32:
+        # the smallest counter value on the wrapping side of the test: > b and <= b split at b + 1, >= b and < b at b
+        first = None if not isinstance(bound, int) else bound + 1 if isinstance(op, (ast.Gt, ast.LtE)) else bound if isinstance(op, (ast.GtE, ast.Lt)) else None
+        if first is not None and 0 < first <= 2**32:
             ok = True
     ctx.ob("C06.L1", q, ok, "the counter wraps before it leaves the 32-bit system-bytes range" if ok else
            f"wrap test {[(norm(n.ast)) for n, _, _ in wraps]} lets the counter exceed 2**32-1 (the header cannot carry it)", key="wrap", where=f.where)
